@@ -533,6 +533,17 @@ impl<D: StorageData> Storage<D> {
             ));
         }
 
+        if self.len().saturating_sub(record.value_start()) < record.size {
+            return Err(DbError::storage(
+                DbErrorType::OutOfBounds,
+                format!(
+                    "Invalid version record size ({}) exceeds storage size ({})",
+                    record.size,
+                    self.len()
+                ),
+            ));
+        }
+
         let bytes = self.read_value(record)?.to_vec();
         u64::deserialize(&bytes)
     }
@@ -577,9 +588,19 @@ impl<D: StorageData> Storage<D> {
         let mut current_pos = Self::current_version_record().end();
 
         while current_pos < end {
+            if (end - current_pos) < STORAGE_RECORD_SIZE {
+                return Err(DbError::storage(
+                    DbErrorType::OutOfBounds,
+                    format!(
+                        "Invalid record header at position {current_pos}: only {} bytes left",
+                        end - current_pos
+                    ),
+                ));
+            }
+
             let record = self.read_record(current_pos)?;
 
-            if (end - current_pos + STORAGE_RECORD_SIZE) < record.size {
+            if (end - current_pos - STORAGE_RECORD_SIZE) < record.size {
                 return Err(DbError::storage(
                     DbErrorType::OutOfBounds,
                     format!(
